@@ -57,6 +57,14 @@ CHECKS["C01"] = (
     "DESIGN.md section 4, C01",
 )
 
+CHECKS["C02"] = (
+    "E1-explicit-state",
+    "explicit-state BFS over operation histories of generated spec classes; structural sharing oracle on every copy transition plus replayed in-place differential",
+    "For every class of the grammar family a BFS over histories (valid arguments) is run on the real class; on every copy-on-write helper call and copy.deepcopy the set of mutable nodes reachable from both receiver and result must lie within the call's own argument objects and do_not_copy values, do_not_copy attributes not targeted by the call must be carried by identity, and (oracle 2) every in-place operation of the small alphabet applied to the result / to the receiver on freshly replayed objects must leave the other observably unchanged.",
+    "Bounded depth and pools; transforms return new objects; frozen nested instances are immutable leaves; oracle 2 in quick tier runs once per call shape and depth.",
+    "DESIGN.md section 4, C02",
+)
+
 ENGINES = [
     {"name": "E1-explicit-state", "path": "mc/common.py, props/*.py (explore)", "serves_properties": [],
      "kind_free_text": "breadth-first explicit-state search over the real transition function; a state is the shortest operation history that reaches it, rebuilt by replay; canonical-form deduplication; lock-step reference model"},
